@@ -254,6 +254,31 @@ def homogeneity(res):
                           "difference_of_run(c*rho0)/c_to_run(rho0)": err})
 
 
+def continued(res):
+    """a TEMPO run continued across the memory cut-off (first call stops before dkmax) equals
+    PT-TEMPO + compute_dynamics (always run)"""
+    import oqupy
+    from oqupy import operators as op
+    corr = oqupy.PowerLawSD(alpha=0.3, zeta=1.0, cutoff=3.0, cutoff_type="exponential", temperature=0.3)
+    bath = oqupy.Bath(0.5 * op.sigma("y"), corr)
+    sysm = oqupy.System(0.5 * op.sigma("x") + 0.2 * op.sigma("z"), gammas=[0.1],
+                        lindblad_operators=[op.sigma("-")])
+    par = oqupy.TempoParameters(dt=0.1, epsrel=1e-9, dkmax=4)
+    t = oqupy.Tempo(sysm, bath, par, op.spin_dm("z+"), start_time=0.0)
+    t.compute(0.25, progress_type="silent")                       # 2 steps < dkmax
+    a = np.array(t.compute(1.05, progress_type="silent").states)  # ... continued to 10 steps
+    pt = oqupy.pt_tempo_compute(bath=bath, start_time=0.0, end_time=1.05, parameters=par,
+                                progress_type="silent")
+    b = np.array(oqupy.compute_dynamics(sysm, initial_state=op.spin_dm("z+"), process_tensor=pt,
+                                        start_time=0.0, progress_type="silent").states)
+    err = float(np.abs(a - b).max()) if a.shape == b.shape else float("inf")
+    res.case("continued:across-the-cut-off", True, {"difference": err})
+    if err > 2e-6:
+        res.fail("Tempo-vs-PT:TEMPO continued across the memory cut-off (first call of 2 steps, dkmax=4)",
+                 {"dkmax": 4, "first_call_steps": 2, "total_steps": 10, "epsrel": 1e-9,
+                  "max_state_difference": err})
+
+
 def file_couplings():
     from oqupy import operators as op
     mix = 0.5 * op.sigma("x") + 0.3 * op.sigma("y") + 0.4 * op.sigma("z")
@@ -302,12 +327,16 @@ def search_long(res):
     algebraically decaying bath memory: TEMPO against PT-TEMPO + compute_dynamics"""
     import oqupy
     from oqupy import operators as op
-    for (alpha, nlong) in [(0.01, 120), (0.05, 120)]:
+    for (alpha, nlong) in [(0.01, 120), (0.05, 120), (0.002, 50)]:
         corr = oqupy.PowerLawSD(alpha=alpha, zeta=1.0, cutoff=5.0, cutoff_type="exponential",
                                 temperature=0.0)
         bath = oqupy.Bath(0.5 * op.sigma("z"), corr)
         sysm = oqupy.System(0.5 * op.sigma("x"))
         par = oqupy.TempoParameters(dt=0.2, epsrel=1e-9, dkmax=3, add_correlation_time=np.inf)
+        if alpha == 0.002:
+            # very weak coupling with FULL memory: every far influence functional is within 1e-5
+            # of the identity, together they matter
+            par = oqupy.TempoParameters(dt=0.2, epsrel=1e-10, dkmax=None)
         dl = oqupy.Tempo(sysm, bath, par, op.spin_dm("z+"), start_time=0.0).compute(
             nlong * 0.2 + 0.05, progress_type="silent")
         ptl = oqupy.pt_tempo_compute(bath=bath, start_time=0.0, end_time=nlong * 0.2 + 0.05,
@@ -317,9 +346,11 @@ def search_long(res):
         errs = [np.abs(np.array(a) - np.array(b)).max() for a, b in zip(dl.states, pdl.states)]
         if len(dl.states) != len(pdl.states) or max(errs) > 2e-6:
             first = next(k for k, e in enumerate(errs) if e > 2e-6)
-            res.fail("Tempo-vs-PT:long-run beyond the cut-off, add_correlation_time=inf",
+            res.fail("Tempo-vs-PT:long-run beyond the cut-off, add_correlation_time=inf"
+                     if alpha != 0.002 else "Tempo-vs-PT:weak coupling, full memory, 50 steps",
                      {"alpha": alpha, "zeta": 1.0, "cutoff": 5.0, "temperature": 0.0, "dt": 0.2,
-                      "dkmax": 3, "add_correlation_time": "inf", "epsrel": 1e-9, "steps": nlong,
+                      "dkmax": par.dkmax, "add_correlation_time": "inf" if alpha != 0.002 else None,
+                      "epsrel": par.epsrel, "steps": nlong,
                       "max_state_difference": max(errs), "first_step_beyond_2e-6": first})
 
 
@@ -345,6 +376,7 @@ def run(tier, seed, replay):
     try:
         correspondence(res, tier, rng)
         homogeneity(res)
+        continued(res)
     except fw.Infra as e:
         res.oblige("correspondence run", False, str(e))
     return fw.finish(res, lambda r: (search_file(r), search_long(r), search(r)))
